@@ -460,11 +460,14 @@ pub fn run(tier: Tier, _replay: Option<String>) -> i32 {
                 (0.5, 0.3, 2, 1, 2, 1.0),
                 (0.0, 0.0, 1, 1, 1, 2.0),
                 (0.3, 0.15, 80, 10, 1, 1.5),
+                // early window overlapping the final step-size window
+                (0.5, 0.6, 2, 1, 1, 1.5),
+                (0.3, 1.0, 3, 2, 1, 1.0),
             ],
             Tier::Thorough => {
                 let mut v = vec![];
                 for ew in [0.0, 0.3, 0.6] {
-                    for ssw in [0.0, 0.15, 0.5] {
+                    for ssw in [0.0, 0.15, 0.5, 1.0] {
                         for (sf, esf) in [(1, 1), (3, 2), (80, 10)] {
                             for uf in [1, 3] {
                                 for g in [1.0, 1.5, 2.0] {
